@@ -145,12 +145,32 @@ InitC04t == \/ /\ cfg \in CfgsC04 /\ in \in IrtOneConf \cup IrtNoConfs \cup { Un
             \/ /\ cfg \in CfgsC04main
                /\ in \in IrtTwoConfs \cup IrtTwoAssns \cup ArtC04 \cup { [x EXCEPT !.entry = "post"] : x \in IrtOneConf }
 
+\* X ("cross") -----------------------------------------------------------------
+\* One deviation in EACH of the three dimensions at once - addressing (C03), request IDs (C04), instants
+\* (C02: "out" is an hour outside the window) - under configurations that interact with them.  A check
+\* that is skipped only in a particular combination ("no window check under AllowIDPInitiated", "no
+\* request-ID check without Destination") shows up here and nowhere in the single-dimension families.
+XBases == { Base, Unsigned(Base), NoDest(Base), [Base EXCEPT !.entry = "post"] }
+XVals(f) == CASE f = "auds" -> { <<"eq">>, <<"wrong">>, <<"prefix">> }
+              [] f = "status" -> { "Success", "Requester" }
+              [] OTHER -> { "eq", "wrong", "prefix" }
+XAddr(b) == UNION { { Vary(b, f, v) : v \in XVals(f) } : f \in Fields }
+XIrt(b)  == { [b EXCEPT !.rIRT = r, !.assns[1].confs[1].irt = c] : r \in {"id1", "other", "absent"}, c \in {"id1", "other", "absent"} }
+XTime(b) == { b, [b EXCEPT !.rTime = "out"], [b EXCEPT !.assns[1].time = "out"], [b EXCEPT !.assns[1].confs[1].nooa = "out"] }
+XSet == UNION { UNION { UNION { XTime(z) : z \in XIrt(y) } : y \in XAddr(x) } : x \in XBases }
+CfgsXq == { [BaseCfg EXCEPT !.allowIdp = a, !.outstanding = o] : a \in BOOLEAN, o \in {{"id1"}, {}} }
+CfgsXt == { [BaseCfg EXCEPT !.allowIdp = a, !.outstanding = o, !.cur = c, !.eidSet = e] :
+              a \in BOOLEAN, o \in {{"id1"}, {"id1", "id2"}, {}}, c \in {"acs", "rel"}, e \in BOOLEAN }
+InitXq == cfg \in CfgsXq /\ in \in XSet
+InitXt == cfg \in CfgsXt /\ in \in XSet
+
 InitVars == /\ pc = IF in.entry = "artifact" THEN "ArtIRT" ELSE "RespSig"
             /\ ai = 1 /\ cj = 1 /\ sigReq = TRUE /\ hasSig = FALSE
             /\ errs = <<>> /\ oks = <<>> /\ verdict = "none" /\ ret = 0 /\ step = "none" /\ badStatus = "none"
 
 Init == /\ CASE Family = "C03q" -> InitC03q [] Family = "C03t" -> InitC03t
              [] Family = "C04q" -> InitC04q [] Family = "C04t" -> InitC04t
+             [] Family = "Xq" -> InitXq [] Family = "Xt" -> InitXt
         /\ (in.dest = "cur" => cfg.cur = "query")     \* "cur" = a Destination equal to the received-at URL where that differs from the ACS URL
         /\ InitVars
 
@@ -290,6 +310,12 @@ Covered(a) == in.signed \/ a.signed \/ (~Browser /\ in.art.signed)
 TimesIn == in.rTime = "in" /\ in.art.time = "in" /\ \A k \in DOMAIN in.assns :
               in.assns[k].time = "in" /\ \A j \in DOMAIN in.assns[k].confs : in.assns[k].confs[j].nooa = "in"
 
+\* C02, as far as this module distinguishes instants ("out" = an hour outside): the Response
+\* IssueInstant, or every assertion's own IssueInstant / a confirmation's NotOnOrAfter
+TimeBad == \/ in.rTime = "out"
+           \/ \A k \in DOMAIN in.assns : \/ in.assns[k].time = "out"
+                                          \/ \E j \in DOMAIN in.assns[k].confs : in.assns[k].confs[j].nooa = "out"
+
 MustReject == C03MustReject \/ C04MustReject
 MustAccept == /\ ~MustReject /\ TimesIn /\ Len(in.assns) = 1      \* several assertions, all good: left open (an SP may insist on exactly one)
               /\ ~DestIsEmpty                                   \* absent Destination on unsigned responses is left open
@@ -310,7 +336,7 @@ NothingWithoutOutstanding ==
 
 Emit == Done => PrintT(<<"VEC", ToJson([prop |-> Family, cfg |-> cfg,
                                         in |-> in, class |-> Class,
-                                        why |-> [c03 |-> C03MustReject, c04 |-> C04MustReject,
+                                        why |-> [c03 |-> C03MustReject, c04 |-> C04MustReject, time |-> TimeBad,
                                                  respIssuer |-> RespIssuerBad, status |-> StatusBad, dest |-> DestBad, art |-> ArtBad,
                                                  assnAddr |-> [k \in DOMAIN in.assns |-> AssnAddrBad(in.assns[k])],
                                                  assnAddrGood |-> [k \in DOMAIN in.assns |-> AssnAddrGood(in.assns[k])],
